@@ -830,6 +830,10 @@ impl MqttClientImpl {
                 reconnect_period
             }
             ExponentialBackoffJitterType::Uniform => {
+                if reconnect_period.is_zero() {
+                    return reconnect_period;
+                }
+
                 self.compute_uniform_jitter_period(reconnect_period.as_nanos())
             }
         }
